@@ -84,6 +84,8 @@ func (Area) Exec(input string) string {
 			return "BADOP"
 		}
 		return fake.ShowMD(out)
+	case "build":
+		return execBuild(f[1])
 	case "fwd":
 		return execFwd(parseOpts(f[1:7]), fake.ParseMD(f[7]), fake.ParseMD(f[8]), fake.ParseMD(f[9]), f[10])
 	case "e2e":
@@ -661,6 +663,34 @@ func (Area) Gen(r *rand.Rand, tier string, emit func(string)) {
 		hdr := genMD(r, append(append([]string{}, o.AllowResponseMD...), o.AllowTrailerMD...), respKeys, true, false)
 		trl := genMD(r, append(append([]string{}, o.AllowTrailerMD...), o.AllowResponseMD...), respKeys, true, false)
 		emit(fmt.Sprintf("fwd %s %s %s %s %s", showOpts(o), fake.ShowMD(dedupLower(ctxMD)), fake.ShowMD(hdr), fake.ShowMD(trl), genMode(r)))
+	}
+	// ---- construction glue: constructor sequences, each in a fresh process (see build.go)
+	{
+		kinds := []string{"p:w", "p:n", "p:d", "b:w", "b:n", "b:d"}
+		for _, a := range kinds { // every ordered pair: 36 processes
+			for _, b := range kinds {
+				emit("build " + a + "," + b)
+			}
+		}
+		emit("build b:d")
+		emit("build p:d")
+		emit("build p:w+l,b:d+l")         // the order of cmd/grpcbridge/main.go, with irrelevant options
+		emit("build p:w,b:d,b:n,p:d")
+		nSeq := 24
+		if tier == "thorough" {
+			nSeq = 400
+		}
+		for i := 0; i < nSeq; i++ {
+			n := 3 + r.Intn(2)
+			parts := make([]string, n)
+			for j := range parts {
+				parts[j] = common.Pick(r, kinds)
+				if r.Intn(5) == 0 {
+					parts[j] += "+l"
+				}
+			}
+			emit("build " + strings.Join(parts, ","))
+		}
 	}
 	// ---- proxy entry, binary metadata at full strength (fix D13): every value class x key spelling / renaming
 	for _, kv := range [][2]string{{"x-bin", "x-bin"}, {"x-bin", "X-BIN"}, {"x-sig-bin", "X-Sig-Bin"}, {"grpc-metadata-data-bin", "Grpc-Metadata-Data-Bin"}, {"grpc-metadata-data-bin", "grpc-metadata-data-bin"}} {
